@@ -753,6 +753,11 @@ static int op_desc(const char* hex, const char* markhex) {
   if (dn) {
     cbor_describe(item, dn); fclose(dn);
     for (size_t i = 0; mn && i + mn <= dlen && !has; i++) if (memcmp(dbuf + i, mk, mn) == 0) has = 1;
+    /* a description that prints text as hex digits is as complete as one that prints it verbatim */
+    for (int up = 0; up < 2 && !has; up++) {
+      char hx[130]; for (size_t j = 0; j < mn; j++) snprintf(hx + 2 * j, 3, up ? "%02X" : "%02x", mk[j]);
+      for (size_t i = 0; mn && i + 2 * mn <= dlen && !has; i++) if (memcmp(dbuf + i, hx, 2 * mn) == 0) has = 1;
+    }
     printf("described bytes=%zu marker=%d\n", dlen, has); free(dbuf);
   } else printf("no-memstream\n");
   cbor_decref(&item);
